@@ -26,8 +26,14 @@ def cases(tier, r):
     yield 'pair', {'seed': r.getrandbits(48), 'depth': r.choice([1, 2, 3]), 'n_edits': r.randint(1, 5),
                    'flavour': r.choice(['edits', 'edits', 'edits', 'unrelated', 'shared']),
                    'mode': r.randrange(4)}
-  for i in range(12 if tier == 'quick' else 60):
-    yield 'hand', {'hand': i % 6, 'seed': r.getrandbits(32), 'mode': r.randrange(4)}
+  # hand-assembled pairs: every one in every mode (naming x with/without old)
+  for rep in range(1 if tier == 'quick' else 3):
+    for i in range(N_HAND):
+      for mode in range(4):
+        yield 'hand', {'hand': i, 'seed': r.getrandbits(32), 'mode': mode}
+
+
+N_HAND = 8
 
 
 def hand_pair(i, r):
@@ -64,6 +70,20 @@ def hand_pair(i, r):
     fdl.update_callable(new.p, fb)
     new.p.s = 4
     fdl.add_tag(new.p, 's', targets.T1)  # tag on a parameter only the new callable has
+    return old, new
+  if i == 6:
+    # several new shared values of ONE callable (their variables need distinct names)
+    old = fdl.Config(fa)
+    bs = [fdl.Config(fc, x=j) for j in range(r.randint(3, 5))]
+    return old, fdl.Config(fa, p=[bs[0], bs[0]], q=[bs[1], bs[1]], r=[b for b in bs[2:] for _ in range(2)])
+  if i == 7:
+    # aliases at several depths whose paths end alike, old values moved under new shared nodes
+    old = fdl.Config(fa, p={'a': [fdl.Config(fc, x=1)], 'b': [fdl.Config(fc, x=2)]},
+                     q=fdl.Config(fb, p=[fdl.Config(fc, x=3)]))
+    new = copy.deepcopy(old)
+    new.r = [new.p['a'][0], new.p['b'][0], new.q.p[0]]
+    new.p['a'][0] = new.q.p[0]
+    new.q.p[0] = r.choice([0, 'z'])
     return old, new
   old = fdl.Config(fa, p=fdl.Config(fc, x=fdl.Config(fc, y=1)), q=fdl.Config(fb, p=1))
   new = copy.deepcopy(old)
